@@ -300,6 +300,11 @@ def main():
         sys.exit(replay(sys.argv[sys.argv.index('--replay') + 1]))
     run = Run('C02', 'translation_validation')
     thorough = run.tier == 'thorough'
+    # every temporary directory of this run (also those of terminated pool workers) lives under one root
+    import atexit
+    root = tempfile.mkdtemp(prefix='c02root_')
+    tempfile.tempdir = root
+    atexit.register(shutil.rmtree, root, True)
     _init()
     budget = 1600 if thorough else 250
     starts = START if thorough else START[:2]
